@@ -412,7 +412,10 @@ def _ws_files(rng):
     for i, nm in enumerate(names):
         par = None if i == 0 else names[rng.randrange(i)]
         pad = rng.choice([0, 0, 3, 12, 40]) if i == 0 or rng.random() < 0.4 else 0
-        L = ["class %s%s" % (nm, " (%s)" % (par if rng.random() < 0.7 else par.upper()) if par else "")]
+        # the header itself may sit on a line the referring files do not have (comment lines in front of it)
+        head = rng.choice([0, 0, 4, 25, 60]) if i == 0 or rng.random() < 0.4 else 0
+        L = ["; header comment %d" % k for k in range(head)]
+        L += ["class %s%s" % (nm, " (%s)" % (par if rng.random() < 0.7 else par.upper()) if par else "")]
         L += [""] * pad
         mine = ["Fld%d" % i, "Shared"] if rng.random() < 0.8 else ["Fld%d" % i]
         for f in mine:
